@@ -2,10 +2,13 @@ import StirVerif.C02.Model
 /-! Line-protocol driver for C02 (implementation side: harness/c02_projdata.cxx).
 
 `cfg <backing> <order> <elemSize> <offset> <minSeg> <maxSeg> <minView> <numViews> <minTang> <numTang> <minTof> <maxTof>
-     <numTof> <checkView> <checkTang> <setBinFlushes> <type> <byteorder> seq <s…> ax <min:num …> tofseq <t…>`
-fixes the layout; the store (element slots, initially 0) is kept here.  Every write answers with the slots whose
-content changed (`d=`), a checksum of their new values and, for file backings, whether the source flushes (`vis=`);
-every read answers with the values found at the addresses the model computes. -/
+     <numTof> <checkView> <checkTang> <setBinFlushes> <type> <byteorder> scale <p> <q> <setBinScaled> <segSizeChecked>
+     seq <s…> ax <min:num …> tofseq <t…>`
+fixes the layout, the on-disk number type and the scale factor `p/q`; the store (element slots holding the ON-DISK
+numbers, initially 0) is kept here.  Values in operation lines are the API-level values (integers or fractions `n/q`).
+Every write answers with the slots whose content changed (`d=`), a checksum of their new on-disk values and, for file
+backings, whether the source flushes (`vis=`); every read answers with the values found at the addresses the model
+computes, multiplied by the scale factor. -/
 namespace Driver.C02
 open StirVerif.C02
 
@@ -14,10 +17,20 @@ structure St where
   backing : String
   fb : Bool
   total : Nat
-  store : Array Int
+  store : Array Rat
+  ty : NumType
+  scale : Rat
+  binScaled : Bool
+  segChecked : Bool
 
 def I (s : String) : Int := s.toInt?.getD 0
 def N (s : String) : Nat := s.toNat?.getD 0
+/-- `n` or `n/q` -/
+def R (s : String) : Rat :=
+  match s.splitOn "/" with
+  | [a] => (I a : Rat)
+  | [a, b] => mkRat (I a) (N b)
+  | _ => 0
 
 def emptyLayout : Layout :=
   { segSeq := [], tofSeq := [], minSeg := 0, maxSeg := 0, minAx := fun _ => 0, numAx := fun _ => 0, minView := 0, numViews := 0,
@@ -27,7 +40,7 @@ def emptyLayout : Layout :=
 def parseCfg (t : List String) : Option St :=
   match t with
   | backing :: order :: size :: off :: minSeg :: maxSeg :: minView :: numViews :: minTang :: numTang :: minTof :: maxTof ::
-      numTof :: chkv :: chkt :: fb :: _ty :: _bo :: "seq" :: rest =>
+      numTof :: chkv :: chkt :: fb :: ty :: _bo :: "scale" :: sp :: sq :: sbs :: chks :: "seq" :: rest =>
     let seq := rest.takeWhile (· ≠ "ax")
     let rest := (rest.dropWhile (· ≠ "ax")).drop 1
     let ax := rest.takeWhile (· ≠ "tofseq")
@@ -48,7 +61,9 @@ def parseCfg (t : List String) : Option St :=
     -- offset_3d_data is computed as the source does (activate_TOF / ProjDataInMemory constructor)
     let l : Layout := { l0 with offset3d := stdOffset3d l0 }
     let total := (sizeAll l).toNat
-    some { l := l, backing := backing, fb := fb == "1", total := total, store := Array.replicate total 0 }
+    let nty : NumType := if ty == "short" then .short else if ty == "ushort" then .ushort else if ty == "int" then .int else .float
+    some { l := l, backing := backing, fb := fb == "1", total := total, store := Array.replicate total 0,
+           ty := nty, scale := mkRat (I sp) (N sq), binScaled := sbs == "1", segChecked := chks == "1" }
   | _ => none
 
 def ranges (v : List Nat) : String :=
@@ -62,40 +77,108 @@ def ranges (v : List Nat) : String :=
 
 def modulus : Int := 1000003
 
-/-- apply (address, value) pairs to the store; answer line of a write -/
-def doWrite (st : St) (addrs : Except Err (List Int)) (vals : List Int) (isBin : Bool) : St × String :=
+def slotsOf (st : St) (as : List Int) : Option (List Nat) :=
+  let slots := as.map fun a => (a - st.l.offset) / st.l.elemSize
+  if slots.any (fun k => k < 0 ∨ k ≥ (st.total : Int)) ∨ as.any (fun a => (a - st.l.offset) % st.l.elemSize ≠ 0) then none
+  else some (slots.map Int.toNat)
+
+/-- lay down ON-DISK numbers at the slots; answer line of a write -/
+def commit (st : St) (slots : List Nat) (disk : List Rat) (isBin : Bool) : St × String :=
+  let new := (slots.zip disk).foldl (fun (arr : Array Rat) (kv : Nat × Rat) => arr.set! kv.1 kv.2) st.store
+  let touched := (slots.toArray.qsort (· < ·)).toList.eraseDups
+  let changed := touched.filter fun (k : Nat) => new[k]! ≠ st.store[k]!
+  let iv (q : Rat) : Int := if q.den = 1 then q.num else 999983
+  let cs := changed.foldl (fun (acc : Int) (k : Nat) => (acc + (((k : Int) + 1) % modulus) * ((iv new[k]! + 1000) % modulus)) % modulus) 0
+  let fileBacked := st.backing == "fs" || st.backing == "if"
+  let flushed := !(isBin && !st.fb)        -- `flushes`: every set_* but set_bin_value (flag from the harness' probe)
+  let vis := if fileBacked then (if flushed || changed.isEmpty then " vis=1" else " vis=0") else ""
+  ({ st with store := new }, s!"ok d={ranges changed} cs={cs}{vis}")
+
+/-- a write of API-level values through a path of kind `k`: `toDisk` with the scale that kind passes to `write_data` -/
+def doWrite (st : St) (addrs : Except Err (List Int)) (vals : List Rat) (k : WriteKind) : St × String :=
   match addrs with
   | .error _ => (st, "err")
   | .ok as =>
     if as.length ≠ vals.length then (st, s!"bad-op values={vals.length} addresses={as.length}") else
-    let slots := as.map fun a => (a - st.l.offset) / st.l.elemSize
-    if slots.any (fun k => k < 0 ∨ k ≥ (st.total : Int)) ∨ as.any (fun a => (a - st.l.offset) % st.l.elemSize ≠ 0) then
-      (st, "ok out-of-store")
-    else
-      let new := (slots.zip vals).foldl (fun (arr : Array Int) (kv : Int × Int) => arr.set! kv.1.toNat kv.2) st.store
-      let touched := ((slots.map Int.toNat).toArray.qsort (· < ·)).toList.eraseDups
-      let changed := touched.filter fun (k : Nat) => new[k]! ≠ st.store[k]!
-      let cs := changed.foldl (fun (acc : Int) (k : Nat) => (acc + (((k : Int) + 1) % modulus) * ((new[k]! + 1000) % modulus)) % modulus) 0
-      let fileBacked := st.backing == "fs" || st.backing == "if"
-      let flushed := !(isBin && !st.fb)        -- `flushes`: every set_* but set_bin_value (flag from the harness' probe)
-      let vis := if fileBacked then (if flushed || changed.isEmpty then " vis=1" else " vis=0") else ""
-      ({ st with store := new }, s!"ok d={ranges changed} cs={cs}{vis}")
+    match slotsOf st as with
+    | none => (st, "ok out-of-store")
+    | some slots =>
+      let sc := writeScale st.binScaled k st.scale
+      commit st slots (vals.map (toDisk st.ty sc)) (!(flushes k))
+
+def readVals (st : St) (addrs : Except Err (List Int)) : Except String (List Rat) :=
+  match addrs with
+  | .error _ => .error "err"
+  | .ok as =>
+    match slotsOf st as with
+    | none => .error "out-of-store"
+    | some slots => .ok (slots.map fun k => fromDisk st.scale st.store[k]!)
+
+def showVals (vs : List Rat) : String :=
+  if vs.isEmpty then "empty" else " ".intercalate (vs.map toString)
 
 def doRead (st : St) (addrs : Except Err (List Int)) : String :=
-  match addrs with
-  | .error _ => "err"
-  | .ok as =>
-    let slots := as.map fun a => (a - st.l.offset) / st.l.elemSize
-    if slots.any (fun k => k < 0 ∨ k ≥ (st.total : Int)) then "out-of-store"
-    else if slots.isEmpty then "empty"
-    else " ".intercalate (slots.map fun k => toString st.store[k.toNat]!)
+  match readVals st addrs with
+  | .error e => e
+  | .ok vs => showVals vs
 
 /-- pairs `view seg view seg …` -/
 def pairsOf : List String → List (Int × Int)
   | v :: s :: rest => (I v, I s) :: pairsOf rest
   | _ => []
 
-def WriteKind.isBin (k : WriteKind) : Bool := !(flushes k)
+/-- split `… y v… x v… A v… B v…` into its sections -/
+def sectionOf (toks : List String) (key : String) : List Rat :=
+  let rest := (toks.dropWhile (· ≠ key)).drop 1
+  (rest.takeWhile fun t => t ≠ "y" ∧ t ≠ "x" ∧ t ≠ "A" ∧ t ≠ "B").map R
+
+def bulkKind (s : String) : Option BulkKind :=
+  match s with
+  | "sapyb" => some .sapyb | "xapyb" => some .xapyb | "axpby" => some .xapyb
+  | "sapybv" => some .sapybv | "xapybv" => some .xapybv
+  | "add" => some .add | "sub" => some .sub | "mul" => some .mul | "div" => some .div
+  | "addf" => some .addf | "subf" => some .subf | "mulf" => some .mulf | "divf" => some .divf
+  | _ => none
+
+/-- bulk arithmetic.  Generic code (`ProjData::xapyb`, `apply_func`): per (TOF, segment) read the segment, combine with the
+    operands' segments (listed in the op line in exactly that order), `set_segment`.  `fast` (all `ProjDataInMemory`):
+    the same element-wise operation on the whole buffers; an in-memory operand's buffer is its values laid out by the
+    in-memory layout (= this layout). -/
+def doBulk (st : St) (kind : BulkKind) (fast : Bool) (a b : Rat) (toks : List String) : St × String :=
+  let l := st.l
+  let ys := sectionOf toks "y"; let xs := sectionOf toks "x"; let As := sectionOf toks "A"; let Bs := sectionOf toks "B"
+  match addrsBulk l with
+  | .error _ => (st, "err")
+  | .ok as =>
+    match slotsOf st as with
+    | none => (st, "ok out-of-store")
+    | some slots =>
+      let n := slots.length
+      let get (v : List Rat) (i : Nat) : Rat := v.getD i 0
+      if (¬ ys.isEmpty ∧ ys.length ≠ n) ∨ (¬ xs.isEmpty ∧ xs.length ≠ n) then (st, s!"bad-op operands={ys.length} elements={n}") else
+      if fast then
+        -- buffers of the operands: value i of the list sits at slot slots[i]
+        let buf (v : List Rat) : Array Rat := (slots.zip v).foldl (fun (arr : Array Rat) kv => arr.set! kv.1 kv.2) (Array.replicate st.total 0)
+        let yb := buf ys; let xb := buf xs; let Ab := buf As; let Bb := buf Bs
+        let all := List.range st.total
+        let res := all.map fun k => bulkResult kind (fromDisk st.scale st.store[k]!) xb[k]! yb[k]! a b Ab[k]! Bb[k]!
+        commit st all (res.map (toDisk st.ty st.scale)) false
+      else
+        let res := (List.range n).map fun i =>
+          bulkResult kind (fromDisk st.scale st.store[slots.getD i 0]!) (get xs i) (get ys i) a b (get As i) (get Bs i)
+        commit st slots (res.map (toDisk st.ty (writeScale st.binScaled .segment st.scale))) false
+
+/-- values of a fresh in-memory object after copying (source address, buffer index) pairs, in buffer order -/
+def copyOut (st : St) (pairs : Except Err (List (Int × Int))) (size : Nat) : String :=
+  match pairs with
+  | .error _ => "err"
+  | .ok ps =>
+    match readVals st (.ok (ps.map (·.1))) with
+    | .error e => e
+    | .ok vs =>
+      if ps.any (fun p => p.2 < 0 ∨ p.2 ≥ (size : Int)) then "out-of-buffer" else
+      let buf := ((ps.map (·.2)).zip vs).foldl (fun (arr : Array Rat) (kv : Int × Rat) => arr.set! kv.1.toNat kv.2) (Array.replicate size 0)
+      showVals buf.toList
 
 def stepLine (st : St) (line : String) : St × String :=
   let toks := (line.trimAscii.toString.splitOn " ").filter (· ≠ "")
@@ -105,34 +188,64 @@ def stepLine (st : St) (line : String) : St × String :=
     match parseCfg rest with
     | some st' => (st', s!"slots {st'.total}")
     | none => (st, "bad-cfg")
-  | ["setb", s, v, a, t, k, x] => doWrite st (addrsBin l ⟨I s, I v, I a, I t, I k⟩) [I x] (WriteKind.isBin .bin)
+  | ["setb", s, v, a, t, k, x] => doWrite st (addrsBin l ⟨I s, I v, I a, I t, I k⟩) [R x] .bin
   | ["getb", s, v, a, t, k] => (st, doRead st (addrsBin l ⟨I s, I v, I a, I t, I k⟩))
-  | "setv" :: s :: v :: k :: vals => doWrite st (addrsViewgram l (I s) (I v) (I k)) (vals.map I) (WriteKind.isBin .viewgram)
+  | "setv" :: s :: v :: k :: vals => doWrite st (addrsViewgram l (I s) (I v) (I k)) (vals.map R) .viewgram
   | ["getv", s, v, k] => (st, doRead st (addrsViewgram l (I s) (I v) (I k)))
-  | "sets" :: s :: a :: k :: vals => doWrite st (addrsSinogram l (I s) (I a) (I k)) (vals.map I) (WriteKind.isBin .sinogram)
+  | "sets" :: s :: a :: k :: vals => doWrite st (addrsSinogram l (I s) (I a) (I k)) (vals.map R) .sinogram
   | ["gets", s, a, k] => (st, doRead st (addrsSinogram l (I s) (I a) (I k)))
-  | "setsv" :: s :: k :: vals => doWrite st (addrsSegByView l (I s) (I k)) (vals.map I) (WriteKind.isBin .segment)
+  | "setsv" :: s :: k :: vals => doWrite st (addrsSegByView l (I s) (I k)) (vals.map R) .segment
   | ["getsv", s, k] => (st, doRead st (addrsSegByView l (I s) (I k)))
-  | "setss" :: s :: k :: vals => doWrite st (addrsSegBySino l (I s) (I k)) (vals.map I) (WriteKind.isBin .segment)
+  | "setss" :: s :: k :: vals => doWrite st (addrsSegBySino l (I s) (I k)) (vals.map R) .segment
   | ["getss", s, k] => (st, doRead st (addrsSegBySino l (I s) (I k)))
   | "setrel" :: k :: n :: rest =>
     let ps := pairsOf (rest.take (2 * N n))
-    doWrite st (addrsRelated l ps (I k)) ((rest.drop (2 * N n)).map I) (WriteKind.isBin .related)
+    doWrite st (addrsRelated l ps (I k)) ((rest.drop (2 * N n)).map R) .related
   | "getrel" :: k :: n :: rest => (st, doRead st (addrsRelated l (pairsOf (rest.take (2 * N n))) (I k)))
   | ["fill", x] =>
     if st.backing == "mem" then
       -- ProjDataInMemory::fill(float) is std::fill over the whole buffer
-      doWrite st (.ok ((List.range st.total).map fun (k : Nat) => (k : Int))) (List.replicate st.total (I x)) false
+      doWrite st (.ok ((List.range st.total).map fun (k : Nat) => (k : Int))) (List.replicate st.total (R x)) .fill
     else
       match addrsFill l with
-      | .ok as => doWrite st (.ok as) (List.replicate as.length (I x)) (WriteKind.isBin .fill)
-      | .error e => doWrite st (.error e) [] false
-  | "fillfrom" :: vals => doWrite st (addrsAll l) (vals.map I) (WriteKind.isBin .fill)
+      | .ok as => doWrite st (.ok as) (List.replicate as.length (R x)) .fill
+      | .error e => doWrite st (.error e) [] .fill
+  | "fillfrom" :: vals => doWrite st (addrsAll l) (vals.map R) .fill
   | "fillpd" :: vals =>
-    -- ProjData::fill(const ProjData&): modelled by its meaning, bin by bin in copy_to order
-    doWrite st ((binsAll l).mapM (offsetOf l)) (vals.map I) (WriteKind.isBin .fill)
+    -- ProjData::fill(const ProjData&) from an in-memory source of the same geometry: modelled by its meaning, bin by bin in copy_to order
+    doWrite st ((binsAll l).mapM (offsetOf l)) (vals.map R) .fill
+  | "fillsrc" :: vals => doWrite st (addrsFillPd l) (vals.map R) .segment
   | ["copyto"] => (st, doRead st (addrsAll l))
+  | "bulk" :: kind :: fast :: a :: b :: rest =>
+    match bulkKind kind with
+    | some bk => doBulk st bk (fast == "1") (R a) (R b) rest
+    | none => (st, "bad-op")
+  | "subset" :: _n :: views =>
+    let vs := views.map I
+    (st, copyOut st (subsetCopy l vs) (sizeAll (subsetLayout l vs.length)).toNat)
+  | ["tomem", how] =>
+    if how == "1" then
+      -- copy constructor: std::copy of the whole buffer
+      (st, doRead st (.ok ((List.range st.total).map fun (k : Nat) => (k : Int))))
+    else (st, copyOut st (copyIntoMemory l) st.total)
+  | ["getvo", s, v, k] =>
+    match readVals st (addrsViewgram l (I s) (I v) (I k)) with
+    | .ok vs => (st, showVals (padOdd l vs))
+    | .error e => (st, e)
+  | ["getso", s, a, k] =>
+    match readVals st (addrsSinogram l (I s) (I a) (I k)) with
+    | .ok vs => (st, showVals (padOdd l vs))
+    | .error e => (st, e)
+  | "setvo" :: s :: v :: k :: vals =>
+    if oddViewgramAccepted l then doWrite st (addrsViewgram l (I s) (I v) (I k)) (vals.map R) .viewgram else (st, "err")
+  | [op, s, k, x] =>
+    if op == "setssx" ∨ op == "setsvx" then
+      match addrsSegOversized l st.segChecked (I s) (I k) 1 with
+      | .ok as => doWrite st (.ok as) (List.replicate as.length (R x)) .segment
+      | .error e => doWrite st (.error e) [] .segment
+    else (st, "bad-op")
   | ["hdr"] => (st, "ok")
+  | ["hdr2"] => (st, "ok")
   | ["wtf"] => (st, "ok")
   | ["hdrx", _] => (st, "done")
   | _ => (st, "bad-op")
@@ -145,5 +258,6 @@ partial def loop (h : IO.FS.Stream) (st : St) : IO Unit := do
   loop h st'
 
 def main : IO Unit := do
-  loop (← IO.getStdin) { l := emptyLayout, backing := "ss", fb := false, total := 0, store := #[] }
+  loop (← IO.getStdin) { l := emptyLayout, backing := "ss", fb := false, total := 0, store := #[],
+                         ty := .float, scale := 1, binScaled := false, segChecked := false }
 end Driver.C02
